@@ -11,7 +11,7 @@ operand (sum of squares or abs(...)) — the float-robust sign domain — and th
 from ..oblig import GOb, Obligation, Verdict, PROVED, REFUTED, UNDECIDED
 from ..symint import atom, EngineError
 from ..loopcut import LoopCut
-from ..iterative import Probe, CallbackProbe, stubbed
+from ..iterative import Probe, CallbackProbe, stubbed, real_dtype
 from .. import specs as SP
 from .. import gtensor as G
 
@@ -269,7 +269,7 @@ def obligations(tier):
         out = []
         def admm_stub(UtM, UtU, x, dual_var, **kw):
             if S.name == "sym":
-                return (G.opaque_tensor("ADMMX", list(x.shape), x.dtype), G.opaque_tensor("ADMMAUX", [x.shape[1], x.shape[0]], x.dtype),
+                return (G.opaque_tensor("ADMMX", list(x.shape), x.dtype), G.opaque_tensor("ADMMAUX", [x.shape[1], x.shape[0]], G._result_dtype(UtM, UtU, x, dual_var)),
                         G.opaque_tensor("ADMMDUAL", list(x.shape), x.dtype))
             from tensorly.solvers.admm import admm as real
             r = real(UtM, UtU, x, dual_var, **kw)
@@ -339,7 +339,7 @@ def obligations(tier):
                     return S.record("HALS", real(UtM, UtU, V, **kw))
                 def fista_stub(UtM, UtU, x=None, **kw):
                     if S.name == "sym":
-                        return G.opaque_tensor("FISTA", list(x.shape), x.dtype)
+                        return G.opaque_tensor("FISTA", list(x.shape), G._result_dtype(UtM, UtU, x))
                     from tensorly.solvers.nnls import fista as real
                     return S.record("FISTA", real(UtM, UtU, x=x, **kw))
                 def as_stub(Utm, UtU, x=None, **kw):
@@ -350,7 +350,7 @@ def obligations(tier):
                 import tensorly as tl_
                 def tsvd_stub(M, *a, **k):
                     if S.name == "sym":
-                        return None, [G.opaque_tensor("SIGMA", [], "float64")], None
+                        return None, [G.opaque_tensor("SIGMA", [], real_dtype(M))], None
                     from tensorly.tenalg.svd import truncated_svd as real
                     r = real(M, *a, **k)
                     S.record("SIGMA", r[1][0])
@@ -467,7 +467,7 @@ def obligations(tier):
         def parafac_stub(X, rank, init=None, **kw):
             if S.name == "sym":
                 w0, f0 = init
-                return CPTensor((None, [G.opaque_tensor("INNER", list(f.shape), f.dtype) for f in f0]))
+                return CPTensor((None, [G.opaque_tensor("INNER", list(f.shape), G._result_dtype(X, f)) for f in f0]))
             r = real_parafac(X, rank, init=init, **kw)
             for f in r[1]:
                 S.record("INNER", f)
